@@ -198,6 +198,9 @@ struct Pending {
     after_disable: bool,
     rx: oneshot::Receiver<Result<Vec<Indexed<u16>>, RequestError>>,
     submitted: Instant,
+    /// result already taken at the state notification that followed the submission
+    early: Option<Result<Vec<Indexed<u16>>, RequestError>>,
+    gate_checked: bool,
 }
 
 async fn run_script(seed: u64, n: u64) -> (Evidence, Vec<(String, String)>, Vec<String>) {
@@ -260,6 +263,29 @@ async fn run_script(seed: u64, n: u64) -> (Evidence, Vec<(String, String)>, Vec<
                         format!("illegal_transition:{}->{}", prev.as_ref().map(state_name).unwrap_or("start"), state_name(&state)),
                         format!("listener observed {} after {}", state_name(&state), prev.as_ref().map(state_name).unwrap_or("nothing")),
                     ));
+                }
+                // "fail immediately instead of queueing": a request handed over while the task was parked
+                // at a wait-state notification is in the queue when the wait starts. The wait loop takes
+                // commands in order until the delay is over; only a disable or shutdown ahead of the
+                // request ends it early (next state Disabled / Shutdown). So if the next state is
+                // Connecting the whole delay went by with the loop running, and the request's callback
+                // has fired before this notification (same task, in this order) - unless it was left
+                // sitting in the queue. Purely logical order, no clock involved.
+                for p in pending.iter_mut() {
+                    if !p.gate_checked && matches!(p.at_state.as_str(), "WaitAfterFailedConnect" | "WaitAfterDisconnect") {
+                        p.gate_checked = true;
+                        match p.rx.try_recv() {
+                            Ok(r) => {
+                                p.early = Some(r);
+                                ev.count("requests_failed_before_next_notification", 1);
+                            }
+                            Err(oneshot::error::TryRecvError::Empty) if matches!(state, ClientState::Connecting) => problems.push((
+                                format!("request_still_queued_when_wait_was_over:submitted_at_{}", p.at_state),
+                                format!("a request submitted while the channel was at {} was still pending when the wait was over (Connecting announced): it was queued instead of failing immediately", p.at_state),
+                            )),
+                            Err(_) => {}
+                        }
+                    }
                 }
                 if let Some((want, _)) = expect_next.take() {
                     if want != state_name(&state) && disable_outstanding.is_none() && shutdown_sent.is_none() {
@@ -393,6 +419,8 @@ async fn run_script(seed: u64, n: u64) -> (Evidence, Vec<(String, String)>, Vec<
                                 after_disable: disable_outstanding.is_some(),
                                 rx,
                                 submitted: Instant::now(),
+                                early: None,
+                                gate_checked: false,
                             });
                         }
                     }
@@ -481,11 +509,13 @@ async fn run_script(seed: u64, n: u64) -> (Evidence, Vec<(String, String)>, Vec<
                                 after_disable: disable_outstanding.is_some(),
                                 rx,
                                 submitted: Instant::now(),
+                                early: None,
+                                gate_checked: false,
                             });
                             // silent peer + consecutive timeout limit of 2: a second request
                             if last_beh == Beh::AcceptSilent && matches!(prev, Some(ClientState::Connected)) {
                                 if let Some(rx) = submit(&handles, 60).await {
-                                    pending.push(Pending { at_state: "idle_Connected".into(), serve: false, after_disable: false, rx, submitted: Instant::now() });
+                                    pending.push(Pending { at_state: "idle_Connected".into(), serve: false, after_disable: false, rx, submitted: Instant::now(), early: None, gate_checked: false });
                                     expect_next = Some(("WaitAfterDisconnect", Instant::now()));
                                 }
                             }
@@ -533,7 +563,11 @@ async fn run_script(seed: u64, n: u64) -> (Evidence, Vec<(String, String)>, Vec<
     }
     // request results
     for p in pending {
-        match tokio::time::timeout(Duration::from_secs(5), p.rx).await {
+        let outcome = match p.early {
+            Some(r) => Ok(Ok(r)),
+            None => tokio::time::timeout(Duration::from_secs(5), p.rx).await,
+        };
+        match outcome {
             Err(_) | Ok(Err(_)) => problems.push((format!("request_never_completed:submitted_at_{}", p.at_state), format!("a request submitted at {} did not complete within 5 s after the script ended", p.at_state))),
             Ok(Ok(res)) => {
                 ev.count("requests_checked", 1);
@@ -633,6 +667,23 @@ pub fn run(args: &Args) -> i32 {
                     }
                     ev.violation(sig, what, json!({"leg": "serial", "scenario": scenario, "k": k}));
                 }
+            }
+        }
+    }
+    // serial port that is disabled while open, disappears and comes back
+    {
+        let reps = args.tier.pick(2usize, 20);
+        for k in 0..reps {
+            let mut e = Evidence::new();
+            let problems = rt.block_on(crate::serial::serial_client_reopen(k, &mut e));
+            ev.merge(e);
+            ev.eval();
+            ev.count("serial_scripts", 1);
+            for (sig, what) in problems {
+                if sig.contains("delay") {
+                    continue; // C14
+                }
+                ev.violation(sig, what, json!({"leg": "serial_reopen", "k": k}));
             }
         }
     }
